@@ -613,9 +613,31 @@ func C29(e *simkern.Env) {
 					}
 				})
 			}
+			// (see "fault: one slow request" below) the operator of such a run
+			// starts its drain while the slow request sits inside the registry
+			stalled := tp.Bool(1, 2)
+			victim := fmt.Sprintf("client%d.p2", tp.Draw(c.nTasks))
+			// the request is let through its first stallFrom-1 stops inside the
+			// registry and is starved from then on
+			stallFrom := 1 + tp.Draw(6)
+			victimParks := 0
+			victimInRegistry := func() bool {
+				for _, t := range sim.Tasks() {
+					if t.Name == victim {
+						parked, site := t.Parked()
+						return parked && strings.Contains(site, "sticky.go") && victimParks >= stallFrom
+					}
+				}
+				return false
+			}
 			sim.Spawn("operator.p2", func() {
 				drainAt := sim.Steps + tp.Range(0, 120)
-				sim.Yield("operator.pre-drain", func() bool { return sim.Steps >= drainAt || c.clientsDone() })
+				sim.Yield("operator.pre-drain", func() bool {
+					if stalled {
+						return victimInRegistry() || c.clientsDone() || sim.Steps >= drainAt+300
+					}
+					return sim.Steps >= drainAt || c.clientsDone()
+				})
 				for wk := range w.W {
 					w.SetDrain(wk, true)
 				}
@@ -625,6 +647,9 @@ func C29(e *simkern.Env) {
 				// tick would be decided by the Go runtime, not by the tape:
 				// Shutdown starts only when every reaper is idle in its select.
 				sim.Yield("operator.pre-shutdown", func() bool {
+					if stalled {
+						return c.reapersIdle()
+					}
 					return (sim.Steps >= shutAt || c.clientsDone()) && c.reapersIdle()
 				})
 				for wk := range w.W {
@@ -634,7 +659,30 @@ func C29(e *simkern.Env) {
 				}
 			})
 			c.maxAdvances = 0 // no clock advances in phase 2 (see Assumptions)
+			// fault: one slow request. In half of the runs one client task is all
+			// but starved whenever it is parked inside the session registry, while
+			// the operator drains and shuts down (a request descheduled between a
+			// check and the action that relies on it).
+			if stalled {
+				sim.Fault("stalled-request")
+				lastSite := ""
+				sim.WeightFn = func(task, site string) int {
+					if task == victim {
+						if site != lastSite {
+							lastSite = site
+							if strings.Contains(site, "sticky.go") {
+								victimParks++
+							}
+						}
+						if strings.Contains(site, "sticky.go") && victimParks >= stallFrom {
+							return 1
+						}
+					}
+					return 2000
+				}
+			}
 			reason = c.runPhase(6000)
+			sim.WeightFn = nil
 			if reason == simkern.StopDone && !e.Violated() {
 				for _, s := range w.Sess {
 					if s.OpenCallStep >= drainDone {
@@ -952,7 +1000,7 @@ func init() {
 		Stub:  []string{"HTTP transport (direct ServeHTTP call, httptest recorder)", "authenticator (identity header)", "handlers, exchange state and session state objects (harness code that parks inside the session lock and counts Close)", "clients and operator (tape-driven)", "linearizability checker (porcupine v1.3.0)"},
 		Quick: 1500, Thorough: 240000,
 		Warm:       warmSticky,
-		FaultKinds: []string{"clock-advance", "token-garbage", "token-foreign-key", "token-other-caller", "token-other-worker", "handler-panic-after-open", "handler-panic-in-session"},
+		FaultKinds: []string{"clock-advance", "token-garbage", "token-foreign-key", "token-other-caller", "token-other-worker", "handler-panic-after-open", "handler-panic-in-session", "stalled-request"},
 		Assumptions: []string{
 			"a request linearises at its registry lookup: a handler that runs on a state already closed by a concurrent close/expiry/shutdown is not a violation, and Close() running while a handler of that session is inside is not a violation",
 			"an expiry decision may use any clock value read inside the operation's interval; at the expiry instant itself both answers are accepted",
